@@ -63,9 +63,11 @@ def run(rep, tier):
     # the hop test the spanner construction relies on (shared with C15)
     from . import c15
     rep.rule('R15f', 'bounded BFS answers true only within the hop bound (an edge is dropped only when a path of <= 2k-1 retained edges exists)', floor=1)
+    rep.rule('R15g', 'hop counters of the bounded BFS are as wide as the hop bound', floor=1)
     nb = 0
     for prog in progs.values():
         nb += c15.r15f(rep, prog)
+        c15.r15g(rep, prog)
     if nb == 0:
         rep.analysis_broken('parmcb::is_bfs_reachable is not instantiated (anchor vanished)')
     c15.r02h_bfs(rep)
